@@ -706,7 +706,15 @@ func (logfmtComp) Corpus() [][]string {
 	const d = 20000 // 2024-10-04
 	const t = d * 86400
 	w := fmt.Sprintf("%d %d", t, t+500)
+	long1 := strings.Repeat("abcdefghij/", 190) + "f.nc"    // 2094 bytes: a legal deep path
+	long2 := strings.Repeat("renamed789/", 190) + "f.20240101" // its rename target, as long: the record passes 4096 bytes
 	return [][]string{
+		// a record longer than 4096 bytes (deep name delivered under a deep rename target) and the records after it on
+		// the same day: found by look-ups with and without hash, replayed by Parse (seed C18f: a 4096-byte line limit
+		// of the scanner ended the scan of that day at the long record)
+		{fmt.Sprintf("recv first - h0 1 %d %d", d, t+50), fmt.Sprintf("recv %s %s h1 5 %d %d", long1, long2, d, t+100), fmt.Sprintf("recv site/last.nc - h2 6 %d %d", d, t+200),
+			"wasrecv " + long1 + " - " + w, "wasrecv " + long1 + " h1 " + w, "wasrecv site/last.nc - " + w, "wasrecv site/last.nc h2 " + w, "wasrecv first - " + w,
+			fmt.Sprintf("parse recv %d %d 0", t, t+500)},
 		// F2 (substring): d/f1 must not be found through the record of d/f10.nc, nor a hash as a name
 		{fmt.Sprintf("recv d/f10.nc - aa11 5 %d %d", d, t+100), "wasrecv d/f1 - " + w, "wasrecv aa11 - " + w, "wasrecv f10 - " + w,
 			"wasrecv d/f10.nc - " + w, "wasrecv d/f10.nc aa11 " + w, "wasrecv d/f10.nc a1 " + w},
